@@ -223,6 +223,50 @@ Definition read_nametree (rs : N -> tres prim) (p : prim) : tres value :=
 Definition site_nametree_todo : N := 1199.    (* object/types.rs: todo!("impl ObjectWrite for NameTree") *)
 Definition write_nametree (v : value) : tres prim := TPanic site_nametree_todo.
 
+(** * PagesRc (object/types.rs): an RcRef<PagesNode> that must be a page-tree node.  Modelled on the domain the
+      generators use — the reference designates a minimal page-tree node << /Type /Pages /Kids [] /Count 0 >> — together
+      with the error paths in front of PageTree::from_dict; any other node content is [unmodelled].  This is what lets
+      the structs with a required PagesRc (Page, Catalog, and through it Trailer) run against the model, in particular
+      [write_top] for their `indirect` fields. *)
+Definition hid_PagesRc : N := 5.
+Definition k_Count : bytes := [67; 111; 117; 110; 116].
+Definition n_Pages : bytes := [80; 97; 103; 101; 115].
+Definition n_Page : bytes := [80; 97; 103; 101].
+Definition c_WrongType : N := 12.              (* PdfError::WrongDictionaryType *)
+
+(* PagesNode::from_primitive on the resolved object *)
+Definition read_pages_node (rs : N -> tres prim) (q : prim) : tres unit :=
+  tdo q' <- resolve_if_ref rs q;
+  tdo d <- into_dictionary q';
+  match dget TypeKey d with
+  | None => TErr (EMissing TypeKey)                      (* dict.require("PagesNode", "Type") *)
+  | Some tp =>
+    tdo n <- as_name tp;
+    if beqb n n_Pages then
+      match dget k_Kids d, dget k_Count d, d with
+      | Some (PArr []), Some (PInt z), [_; _; _] => if (z =? 0)%Z then TOk tt else unmodelled
+      | _, _, _ => unmodelled
+      end
+    else if beqb n n_Page then unmodelled
+    else TErr (EBase c_WrongType)
+  end.
+
+(* impl Object for PagesRc: t!(RcRef::from_primitive(p, resolve)) — Resolve::get wraps its error in Shared *)
+Definition read_pagesrc (rs : N -> tres prim) (p : prim) : tres value :=
+  match p with
+  | PRef i g =>
+    match (tdo q <- rs i; read_pages_node rs q) with
+    | TOk _ => TOk (VIndirect i g VUnit)
+    | TErr e => if negb (match e with EBase c => c =? c_Unmodelled | _ => false end)
+                then TErr (ETry (if get_wraps_shared then EShared e else e)) else TErr e
+    | TPanic s => TPanic s
+    | TFuel => TFuel
+    end
+  | _ => TErr (ETry (EBase c_Unexpected))
+  end.
+Definition write_pagesrc (v : value) : tres prim :=
+  match v with VIndirect i g _ => TOk (PRef i g) | _ => ill_typed end.
+
 (** * the table *)
 Definition hand_read (i : N) (rs : N -> tres prim) (p : prim) : tres value :=
   if i =? hid_Date then read_date rs p
@@ -230,6 +274,7 @@ Definition hand_read (i : N) (rs : N -> tres prim) (p : prim) : tres value :=
   else if i =? hid_Matrix then read_matrix rs p
   else if i =? hid_Action then read_action rs p
   else if i =? hid_NameTreePrim then read_nametree rs p
+  else if i =? hid_PagesRc then read_pagesrc rs p
   else unmodelled.
 Definition hand_write (i : N) (v : value) : tres prim :=
   if i =? hid_Date then write_date v
@@ -237,5 +282,6 @@ Definition hand_write (i : N) (v : value) : tres prim :=
   else if i =? hid_Matrix then write_numbers 6 v
   else if i =? hid_Action then write_action v
   else if i =? hid_NameTreePrim then write_nametree v
+  else if i =? hid_PagesRc then write_pagesrc v
   else unmodelled.
 Definition hands : hand := {| h_read := hand_read; h_write := hand_write |}.
